@@ -49,7 +49,10 @@ def main(argv=None):
 
     spec = mod.spec(args.tier, seed)          # dict: queries, mir (optional callable), bounds, outside, assumptions, exhaustive
     queries: list[Query] = spec.get("queries", [])
-    if args.only:
+    only_mir = args.only == "mir"
+    if only_mir:
+        queries = []
+    elif args.only:
         queries = [q for q in queries if re.search(args.only, q.name)]
     if args.list:
         for q in queries:
@@ -100,7 +103,7 @@ def main(argv=None):
                         inconclusive.append(f"{q.name}: solver counterexample did not reproduce natively ({rep.get('why', 'playback test passed')})")
                 elif r.status == "pass" and q.expect == "known" and q.known_id in known:
                     log(f"[note] known finding {q.known_id} no longer reproduces (harness {q.name} passes)")
-        if "mir" in spec and not args.only:
+        if "mir" in spec and (only_mir or not args.only):
             m_results, m_viol, m_inc = spec["mir"](args.tier, seed)
             for (name, payload) in m_viol:
                 path = save_replay_m(pid, name, payload, args.tier, seed)
